@@ -496,6 +496,9 @@ class Collada(object):
                      (self.nodes, 'library_nodes'),
                      (self.scenes, 'library_visual_scenes')]
 
+        if self.scene is not None and self.scene not in self.scenes:
+            raise DaeBrokenRefError('Default scene %s not found' % self.scene.id)
+
         self.assetInfo.save()
         assetnode = self.xmlnode.getroot().find(self.tag('asset'))
         if assetnode is not None:
@@ -523,12 +526,15 @@ class Collada(object):
             _syncChildren(node, [o.xmlnode for o in arr])
 
         scenenode = self.xmlnode.find(self.tag('scene'))
-        scenenode.clear()
-        if self.scene is not None:
-            sceneid = self.scene.id
-            if sceneid not in self.scenes:
-                raise DaeBrokenRefError('Default scene %s not found' % sceneid)
-            scenenode.append(E.instance_visual_scene(url="#%s" % sceneid))
+        if scenenode is None and self.scene is not None:
+            scenenode = E.scene()
+            root = self.xmlnode.getroot()
+            extras = root.findall(self.tag('extra'))
+            root.insert(list(root).index(extras[0]) if extras else len(root), scenenode)
+        if scenenode is not None:
+            _syncChildren(scenenode, [] if self.scene is None else
+                          [E.instance_visual_scene(url="#%s" % self.scene.id)],
+                          lambda child: child.tag == self.tag('instance_visual_scene'))
 
         if self.validator is not None:
             if not self.validator.validate(self.xmlnode):
